@@ -1,6 +1,6 @@
 (* C10 — property theorems (statements only).  Owner: builder-parse. *)
 From Coq Require Import List NArith Bool Arith.
-From DV Require Import C10.Model C10.Proofs C10.Backtrack.
+From DV Require Import C10.Model C10.Proofs C10.Backtrack C10.NormalForm.
 Import ListNotations.
 
 (* longest match: for every key set and every input, outside the `item` and `for .. in` tweaks, the name token is the
@@ -37,6 +37,15 @@ Print Assumptions C10_operator_when_unbound.
 Theorem C10_normal_form : forall ps, flatten_parts ps = name_new ps.
 Proof. exact normal_form. Qed.
 Print Assumptions C10_normal_form.
+
+(* the original flatten_name_parts agreed with Name::new when every additional symbol stands between two words (the property's
+   quantifier: words joined by one symbol).  In part: proved for all part lists of at most 5 parts over two words and the six
+   symbols (37449 lists).  Missing: all part lists (a proof over the six successive str::replace passes); the class is not an
+   exact characterisation (`. . a` also agrees).  After the repair C10_normal_form holds for every part list. *)
+Theorem C10_normal_form_orig_partial : forall ps, List.In ps (lists_upto 5) -> isolated ps = true ->
+  flatten_parts_orig ps = name_new ps.
+Proof. exact normal_form_orig_isolated. Qed.
+Print Assumptions C10_normal_form_orig_partial.
 
 (* the original flatten_name_parts did not agree with Name::new *)
 Theorem C10_normal_form_orig_refuted :
